@@ -276,7 +276,14 @@ func runC03(c *an.Ctx) {
 				}
 			})
 			okRoll := roll != nil && adj != nil
-			if okRoll {
+			if !okRoll {
+				// the rolling header may also be an ordinary loop-carried variable (a phi): head on entry,
+				// the accepted element on the way back
+				if a2, ok2 := rollingPhi(t, ff, loop, headT); ok2 {
+					adj, okRoll, roll = a2, true, nil
+				}
+			}
+			if okRoll && roll != nil {
 				for _, st := range an.AllocStores(roll) {
 					v := t.Of(st.Val)
 					switch v {
@@ -388,6 +395,48 @@ func contradictory(fs an.FactSet) bool {
 		}
 	}
 	return false
+}
+
+// rollingPhi finds, at the header of an index-walk loop, a loop-carried header whose value is start
+// on entry and the current element on every way back, the way back being guarded by
+// elem.Height() == rolling.Height()+1. It returns that adjacency fact.
+func rollingPhi(t *an.Terms, ff *an.FuncFacts, loop *idxLoop, start string) (*an.Fact, bool) {
+	if loop == nil || len(loop.Elems) == 0 {
+		return nil, false
+	}
+	elem := t.Of(loop.Elems[0])
+	for _, in := range loop.Header.Instrs {
+		ph, isPhi := in.(*ssa.Phi)
+		if !isPhi {
+			break
+		}
+		if ph == loop.Phi || ph.Type() != loop.Elems[0].Type() {
+			continue
+		}
+		rollH := "(Height(" + t.Of(ph) + ")+1)"
+		var adj *an.Fact
+		for _, f := range condFacts(t) {
+			if f.Op == "EQ" && (f.A == rollH && f.B == "Height("+elem+")" || f.B == rollH && f.A == "Height("+elem+")") {
+				g2 := an.Fact{Atom: f.Atom, Pos: true}
+				adj = &g2
+			}
+		}
+		if adj == nil {
+			continue
+		}
+		ok := true
+		for _, pe := range ff.PhiOperands(ph) {
+			if ff.Dominates(loop.Header, pe.Pred) {
+				ok = ok && t.Of(pe.Val) == elem && pe.Facts.Has(*adj)
+			} else {
+				ok = ok && t.Of(pe.Val) == start
+			}
+		}
+		if ok {
+			return adj, true
+		}
+	}
+	return nil, false
 }
 
 // checkAdjacencyWalker handles the variant of syncStore.Append in which the adjacency walk was
